@@ -592,14 +592,19 @@ def anchorsOf (s : Sys) (f : File) : List Name :=
       (methods s p).flatMap fun c => [(s.ob c).name, fullName s c])
   ++ (if f = .summary .classIndex then (classIndexListed s).map (fullName s) else [])
 
+/-- does the reference `h`, found on `page`, lead to one of the files `w` and, if it has a fragment, to
+one of the anchors `anch` gives for that file? -/
+def resolvesHrefIn (w : List File) (anch : File → List Name) (page : File) (h : Href) : Bool :=
+  let f := h.file.getD page
+  w.contains f &&
+    match h.frag with
+    | none => true
+    | some a => (anch f).contains a
+
 /-- does the reference `h`, found on `page`, lead to a written file and, if it has a fragment, to an
 anchor of that file? -/
 def resolvesHref (s : Sys) (page : File) (h : Href) : Bool :=
-  let f := h.file.getD page
-  (written s).contains f &&
-    match h.frag with
-    | none => true
-    | some a => (anchorsOf s f).contains a
+  resolvesHrefIn (written s) (anchorsOf s) page h
 
 /-- the `href` of an emitted link; `none` = `url` raises -/
 def href (s : Sys) (e : Emit) : Option Href := (url s e.target).map fun u => shorten u e.ctx
@@ -608,12 +613,16 @@ def Row.isLink : Row → Bool
   | .detail => false
   | _ => true
 
-/-- the emitted link resolves (entries that are not hyperlinks resolve trivially) -/
-def resolves (s : Sys) (e : Emit) : Bool :=
+/-- the emitted link resolves among the files `w` with anchors `anch` (entries that are not hyperlinks
+resolve trivially) -/
+def resolvesIn (s : Sys) (w : List File) (anch : File → List Name) (e : Emit) : Bool :=
   !e.row.isLink || !e.linked ||
     match href s e with
     | none => false
-    | some h => resolvesHref s e.page h
+    | some h => resolvesHrefIn w anch e.page h
+
+/-- the emitted link resolves -/
+def resolves (s : Sys) (e : Emit) : Bool := resolvesIn s (written s) (anchorsOf s) e
 
 /-- `url o` as a reference from anywhere (full form) -/
 def urlResolves (s : Sys) (i : Nat) : Bool :=
